@@ -34,6 +34,11 @@ def RootTable.free (t : RootTable α) (k : Token) : RootTable α :=
 def RootTable.freeUnderCurrent (t : RootTable α) (k : Token) : RootTable α :=
   { t with roots := t.roots.filter fun e => e.1 ≠ (⟨t.generation, k.offset⟩ : Token) }
 
+/-- The variant whose `drop` gives up when the table's mutex is busy (`try_lock`): `busy` is the scheduler's
+choice at that drop. -/
+def RootTable.freeUnlessBusy (t : RootTable α) (busy : Bool) (k : Token) : RootTable α :=
+  if busy then t else t.free k
+
 /-- `Roots::increment_generation` (end of every full collection). -/
 def RootTable.collect (t : RootTable α) : RootTable α := { t with generation := t.generation + 1 }
 
